@@ -51,7 +51,7 @@ Env == [L |-> l1, T2 |-> T2Rows]
 
 TotalAB == <<Term(A, TRUE), Term(B, FALSE)>>
 
-BaseOps == {Proj({"a"}), Sel(Cmp("eq", A, Lit(1))), Dedup, Sort(TotalAB), Sort(<<Term(B, TRUE)>>),
+BaseOps == {Proj({"a"}), Proj({"b"}), Sel(Cmp("eq", A, Lit(1))), Dedup, Sort(TotalAB), Sort(<<Term(B, TRUE)>>),
             Slice(0, 2), Slice(1, -1), Calc("d", Fn("add", <<A, B>>))}
 
 AllFinalOps ==
@@ -102,9 +102,13 @@ FinalCalls(r) ==
 \* (three columns at depth 0); "xmat": transfer to it1 followed by a
 \* materialization (a locked node in the middle of longer transfer chains)
 StartCall == [f |-> "un", op |-> Calc("d", Fn("add", <<A, B>>)), opts |-> DefaultOpts]
+XSelCall == [f |-> "un", op |-> Sel(Cmp("eq", A, Lit(1))), opts |-> DefaultOpts]
 StartHist(st) == CASE st = "none" -> <<>>
                    [] st = "calc" -> <<StartCall>>
                    [] st = "xmat" -> <<[f |-> "xfer", dest |-> "it1"], [f |-> "mat", name |-> "m1"]>>
+                   \* "xsel": a selection on column a downstream of a transfer (an operation that READS a column
+                   \* a later projection may hide and a joined relation may provide again)
+                   [] st = "xsel" -> <<[f |-> "xfer", dest |-> "it1"], XSelCall>>
 RECURSIVE RunCalls(_, _, _)
 RunCalls(h, r, rows) ==      \* [t, rows] after the calls of h
     IF h = <<>> THEN [t |-> r, rows |-> rows]
@@ -112,7 +116,7 @@ RunCalls(h, r, rows) ==      \* [t, rows] after the calls of h
 Init == /\ src \in Sources
         /\ l1 \in Contents
         /\ \E st \in Starts :
-             /\ (st = "xmat" => src = "sql")       \* for an it1 source both pre-seeded calls would be no-ops
+             /\ (st \in {"xmat", "xsel"} => src = "sql")       \* for an it1 source the pre-seeded transfer would be a no-op
              /\ LET leaf == IF src = "sql" THEN PlainSel(LeafL(src, l1)) ELSE LeafL(src, l1)
                  run == RunCalls(StartHist(st), leaf, l1) IN
                 /\ hist = StartHist(st)
@@ -122,6 +126,7 @@ Init == /\ src \in Sources
         /\ final = FALSE
 NStart == IF hist # <<>> /\ hist[1] = StartCall THEN 1
           ELSE IF Len(hist) >= 2 /\ hist[1].f = "xfer" /\ hist[2].f = "mat" /\ hist[2].name = "m1" /\ hist[1].dest = "it1" THEN 2
+          ELSE IF Len(hist) >= 2 /\ hist[1].f = "xfer" /\ hist[1].dest = "it1" /\ hist[2] = XSelCall THEN 2
           ELSE 0
 
 Base == /\ ~final /\ Len(hist) < BaseDepth + NStart
@@ -277,7 +282,7 @@ ProcessedBaseSound ==
 F17Gone == ProcessedBaseSound
 
 (* ---------------- refused requests (C20 with options) ---------------- *)
-IllOps == {Calc("k", Ref("z")), Calc("a", Fn("neg", <<B>>)), Proj({"a", "z"}),
+IllOps == {Calc("k", Ref("z")), Calc("b", Fn("neg", <<B>>)), Proj({"a", "z"}),
            SelRaw(Cmp("eq", Ref("z"), Lit(0))), Sort(<<Term(Ref("z"), TRUE)>>), Slice(3, 1), Slice(-1, 2)}
 SomeOpts == {Opts("none", TRUE, FALSE, FALSE), Opts("sql", TRUE, FALSE, TRUE), Opts("it2", FALSE, TRUE, FALSE),
              Opts("sql", TRUE, TRUE, FALSE), Opts("it1", TRUE, FALSE, FALSE)}
